@@ -273,7 +273,10 @@ func runC23(c *Ctx) {
 	if nInj == 0 {
 		c.Undecided("inject-filtered", "handleAvailableCommands", "no injection loop found")
 	}
-	for _, rc := range callsIn(h, func(nm string, cc *ssa.CallCommon) bool { m := methodName(cc); return m == "RemoveChild" || m == "AddChild" }) {
+	for _, rc := range callsIn(h, func(nm string, cc *ssa.CallCommon) bool {
+		m := methodName(cc)
+		return m == "RemoveChild" || m == "AddChild"
+	}) {
 		c.Check("only-same-name-removed", methodName(rc.Common())+"@handleAvailableCommands", rc, false, "backend tree modified outside the injection loop")
 	}
 }
